@@ -44,9 +44,19 @@ void inst(Fr& r, const Fr& a, Fq& q, const Fq& b, BigInt<256>& i256, BigInt<384>
 '''
 
 
-def unity_source(extra_sources=(), with_driver=True, repo=None):
+# the C-interface translation units cannot share one TU (each opens its scheme's namespace): one variant per wrapper file
+VARIANTS = {
+    "wkdcapi": dict(drop=("src/lqibe/api.cpp", "src/lqibe/marshal.cpp"), add=("src/wkdibe/wkdibe.cpp",)),
+    "lqcapi": dict(drop=("src/wkdibe/api.cpp", "src/wkdibe/marshal.cpp"), add=("src/lqibe/lqibe.cpp",)),
+}
+
+
+def unity_source(extra_sources=(), with_driver=True, repo=None, variant=None):
     repo = repo or REPO
-    s = "".join('#include "%s/%s"\n' % (repo, f) for f in LIB_SOURCES)
+    srcs = list(LIB_SOURCES)
+    if variant:
+        srcs = [f for f in srcs if f not in VARIANTS[variant]["drop"]] + list(VARIANTS[variant]["add"])
+    s = "".join('#include "%s/%s"\n' % (repo, f) for f in srcs)
     s += "".join('#include "%s/%s"\n' % (repo, f) for f in extra_sources)
     if with_driver:
         s += DRIVER
